@@ -122,7 +122,9 @@ def nearest_fact(body, bb):
     for edge, fact in edge_facts(body):
         if not must_pass_edge(body, bb, edge):
             continue
-        if best is None or body.dominates(best[0][0], edge[0]):
+        # deeper = its switch lies behind the current best edge (must_pass_edge knows the infeasible side of `0 <= x` on an
+        # unsigned x, which plain dominance does not: the `_` arm of `match n { 0..K => .., _ => .. }`)
+        if best is None or body.dominates(best[0][0], edge[0]) or (edge[0] != best[0][0] and must_pass_edge(body, edge[0], best[0])):
             best = (edge, fact)
     return best[1] if best else None
 
@@ -558,6 +560,8 @@ def rule_r4(facts, col, bodies=None):
                                     "work() proceeds with %d samples on self.%s but waits for %d: when the peer delivers fewer than that and "
                                     "goes away, the wait reports 'can never be satisfied' and the block is retired with samples it could have "
                                     "processed" % (t, tgt, nd), {})
+                        continue
+                col.silent("C09.R4", key, body.where(bb), "controlling condition is not a plain 'window is short' test")
                 continue
             if w[0] != tgt:
                 continue
@@ -1415,8 +1419,8 @@ def rule_r11(facts, col, rule_id="C09.R11"):
 
 # a body that raises an alarm as compiled is judged again on its work view (effects.view_fallback)
 rule_r2 = effects.view_fallback(rule_r2)
-rule_r3 = effects.view_fallback(rule_r3)
-rule_r4 = effects.view_fallback(rule_r4)
+rule_r3 = effects.view_fallback(rule_r3, trust_view=True, site_retry=True)
+rule_r4 = effects.view_fallback(rule_r4, trust_view=True, site_retry=True)
 rule_r5 = effects.view_fallback(rule_r5)
 rule_r6 = effects.view_fallback(rule_r6)
 rule_r7 = effects.view_fallback(rule_r7)
